@@ -187,6 +187,13 @@ impl Acc {
     /// Record a failure for `case`.  Known findings are tolerated (counted) so
     /// that the search continues behind them.
     pub fn fail(&mut self, f: Fail, case: Value) {
+        if f.sig.starts_with("HARNESS/") {
+            // the harness could not do what it set out to do: inconclusive, never a verdict
+            if self.harness_errors.len() < 20 {
+                self.harness_errors.push(format!("{}: {}", f.sig, f.what));
+            }
+            return;
+        }
         if let Some(what) = self.known.lookup(&f.sig) {
             let e = self.known_hits.entry(f.sig.clone()).or_insert((0, what));
             e.0 += 1;
